@@ -42,6 +42,7 @@ type FuncSpec struct {
 	ReplayKeys []string
 	Synchronous []string // property ids: the body must not spawn, send on channels or defer
 	IsSync     bool
+	Recovers   bool // a deferred handler: calls recover() and turns a panic into results
 	NoPanic    []string // property ids for implicit-panic obligations
 	HasNoPanic bool
 	Floor      int // minimal number of obligations expected
@@ -104,7 +105,7 @@ var knownKeywords = map[string]bool{
 	"func": true, "iface": true, "ghost": true, "chaninv": true, "smtfun": true, "spec": true, "axiom": true, "lemma": true,
 	"requires": true, "ensures": true, "maintains": true, "modifies": true, "pure": true, "pure_const": true, "inline": true, "let": true, "loop": true,
 	"panics_iff": true, "ensures_on_panic": true, "replay": true, "nopanic": true, "synchronous": true, "params": true, "results": true,
-	"trusted": true, "floor": true, "callee": true, "use": true, "extern": true, "decreases": true,
+	"trusted": true, "floor": true, "callee": true, "use": true, "extern": true, "decreases": true, "recovers": true, "may_panic": true,
 }
 
 func parsePropsLabel(s string) (props []string, label string) {
@@ -291,6 +292,13 @@ func (sf *SpecFile) load(path string, extern bool) error {
 				cur.Inline = true
 			case first == "trusted":
 				cur.Trusted = true
+			case first == "recovers":
+				cur.Recovers = true
+			case first == "may_panic":
+				// run-time panics of this function are somebody else's business (a caller recovers):
+				// its no-panic obligations belong to no property
+				cur.HasNoPanic = true
+				cur.NoPanic = []string{"-"}
 			case first == "params":
 				for _, p := range strings.Split(rest, ",") {
 					cur.Params = append(cur.Params, strings.TrimSpace(p))
